@@ -23,6 +23,18 @@ Proof.
 Qed.
 Print Assumptions C19_apsp_no_panic.
 
+(* the registered decoder decodeAPSP: no panic; the layer value is added exactly when it returns nil; the truncated flag never
+   reaches the packet (NilDecodeFeedback) *)
+Theorem C19_apsp_decoder_no_panic : forall data,
+  let '(l, added, nx, o, tr) := ap_decode_fn data in
+  is_panic o = false /\ (added = true <-> o = Ok tt) /\ (o = Ok tt -> nx = Some 4) /\ tr = false.
+Proof.
+  intros data. unfold ap_decode_fn. destruct (zlen data =? 0); [repeat split; intros; discriminate|].
+  pose proof (C19_apsp_no_panic ap_fresh data) as P. destruct (ap_decode_into ap_fresh data) as [[l o] tr]. cbn [fst snd] in P.
+  destruct o as [[]|e|s]; repeat split; intros; try discriminate; try reflexivity; try assumption.
+Qed.
+Print Assumptions C19_apsp_decoder_no_panic.
+
 Theorem C05_apsp_fresh : forall old data,
   let r1 := ap_decode_into old data in
   let r2 := ap_decode_into ap_fresh data in
